@@ -237,8 +237,8 @@ Section SplitFull.
       (forall l, get_chunks cs msg = Some l ->
          exists seg0 segs,
            l = seg0 ++ concat segs /\
-           seg_ok (m_path msg) (m_fsize msg) None (map (set_count cs 0) seg0) /\
-           Forall2 (fun seg f => seg_ok (sf_path f) (sf_size f) (Some f) (map (set_count cs 0) seg)) segs (m_files msg) /\
+           seg_ok (m_path msg) (m_fsize msg) None (map (set_count 0) seg0) /\
+           Forall2 (fun seg f => seg_ok (sf_path f) (sf_size f) (Some f) (map (set_count 0) seg)) segs (m_files msg) /\
            mids_from 0 l /\ Forall (fun m => c_count m = nlen l) l).
   Proof.
     intro msg. split.
@@ -257,22 +257,27 @@ Section SplitFull.
       rewrite split_files_concat in H.
       set (segs := split_segs msg (m_files msg) (nlen main)) in *.
       set (n := nlen (main ++ concat segs)) in *.
-      exists (map (set_count cs n) main), (map (map (set_count cs n)) segs).
+      exists (map (set_count n) main), (map (map (set_count n)) segs).
       destruct (split_segs_ok msg (m_files msg) (nlen main) Hfs) as [S M]. fold segs in S, M.
-      assert (SC : forall k seg, map (set_count cs 0) (map (set_count cs k) seg) = map (set_count cs 0) seg)
+      assert (SC : forall k seg, map (set_count 0) (map (set_count k) seg) = map (set_count 0) seg)
         by (intros; rewrite map_map; reflexivity).
-      assert (SO : forall path fsize sf seg, seg_ok path fsize sf seg -> seg_ok path fsize sf (map (set_count cs 0) seg)).
-      { intros path fsize sf seg [A [B [C E]]]. unfold seg_ok, nlen. rewrite !map_map, !map_length. simpl.
-        fold (nlen seg). repeat split; auto.
-        - rewrite <- B. reflexivity.
-        - apply Forall_forall. intros m Hin. apply in_map_iff in Hin. destruct Hin as [x [Hx Hin]]. subst m.
-          rewrite Forall_forall in E. apply (E x Hin). }
-      split; [|split; [|split; [|split]]].
-      + rewrite <- H. rewrite map_app. f_equal. rewrite concat_map. reflexivity.
-      + rewrite SC. apply SO. apply split_file_seg_ok. exact Hm.
-      + clear - S SC SO. induction S; simpl; constructor; auto. rewrite SC. apply SO. assumption.
-      + rewrite <- H. apply mids_from_map; [reflexivity|].
-        apply mids_from_app; [apply split_file_partition; exact Hm|]. rewrite N.add_0_l. exact M.
-      + exact Hc.
+      assert (SO : forall path fsize sf seg, seg_ok path fsize sf seg -> seg_ok path fsize sf (map (set_count 0) seg)).
+      { intros path fsize sf seg [A [B [C E]]].
+        assert (NL : nlen (map (set_count 0) seg) = nlen seg) by (unfold nlen; rewrite map_length; reflexivity).
+        unfold seg_ok. rewrite NL, !map_map. split; [exact A|]. split; [exact B|]. split; [exact C|].
+        apply Forall_forall. intros m Hin. apply in_map_iff in Hin. destruct Hin as [x [Hx Hin]]. subst m.
+        rewrite Forall_forall in E. apply (E x Hin). }
+      split. { rewrite <- H. rewrite map_app, concat_map. reflexivity. }
+      split. { rewrite SC. exact (SO _ _ _ _ (split_file_seg_ok msg (m_path msg) (m_fsize msg) 0 None Hm)). }
+      split. { assert (G : forall k ss fs,
+                          Forall2 (fun seg f => seg_ok (sf_path f) (sf_size f) (Some f) seg) ss fs ->
+                          Forall2 (fun seg f => seg_ok (sf_path f) (sf_size f) (Some f) (map (set_count 0) seg))
+                                  (map (map (set_count k)) ss) fs).
+               { intros k ss fs F. induction F as [|seg f ss' fs' Hh Ht IH]; simpl; constructor;
+                   [rewrite SC; apply SO; exact Hh|exact IH]. }
+               apply G. exact S. }
+      split. { rewrite <- H. apply mids_from_map; [reflexivity|].
+               apply mids_from_app; [apply split_file_partition; exact Hm|]. rewrite N.add_0_l. exact M. }
+      exact Hc.
   Qed.
 End SplitFull.
